@@ -29,7 +29,14 @@ class GdefFeatureWriter(BaseFeatureWriter):
 
         ctx.gdefTableBlock = ast.findTable(self.context.feaFile, "GDEF")
         if ctx.gdefTableBlock:
-            for fea in ctx.gdefTableBlock.statements:
+            # the feature file may define the GDEF table in several blocks
+            gdefStatements = [
+                fea
+                for block in self.context.feaFile.statements
+                if isinstance(block, ast.TableBlock) and block.name == "GDEF"
+                for fea in block.statements
+            ]
+            for fea in gdefStatements:
                 if isinstance(fea, ast.GlyphClassDefStatement):
                     ctx.todo.discard("GlyphClassDefs")
                 elif isinstance(fea, ast.LigatureCaretByIndexStatement) or isinstance(
